@@ -7,7 +7,7 @@ pub fn def() -> PropDef {
     PropDef {
         id: "C10",
         builds: BOTH,
-        rule: "(i) every one of the 1,112,064 Unicode scalar values, alone and embedded between escape sequences; (ii) every string over {L,W,CM,E2,EM,TAB,SP,CSI,CSI2,OSB,OSS} up to length N, with every insertion of each of 4 well-formed sequences at every symbol boundary and every split for additivity; (iii) every string over raw escape pieces {L,W,ESC,[,],\\,BEL,m,;,1} up to length N for the byte-length bound; (iv) a scan of every byte 0x20..0x7F as CSI final byte / inside an OSC; non-trivial = a string containing a sequence or a character whose width differs from 1",
+        rule: "(i) every one of the 1,112,064 Unicode scalar values, alone, embedded between escape sequences, inside an OSC payload and among CSI parameters; (ii) every string over {L,W,CM,E2,EM,TAB,SP,CSI,CSI2,OSB,OSS} up to length N, with every insertion of each of 4 well-formed sequences at every symbol boundary and every split for additivity; (iii) every string over raw escape pieces {L,W,ESC,[,],\\,BEL,m,;,1} up to length N for the byte-length bound; (iv) a scan of every byte 0x20..0x7F as CSI final byte / inside an OSC; non-trivial = a string containing a sequence or a character whose width differs from 1",
         assumptions: BASE_ASSUMPTIONS,
         floor: |t| t.pick(100_000, 300_000),
         run,
@@ -19,7 +19,7 @@ const SEQS: &[&str] = &["\x1b[1m", "\x1b[38;5;9m", "\x1b]8;;u\x07", "\x1b]8;;u\x
 fn run(r: &mut Run) -> Result<(), MachineryError> {
     let t = r.tier;
     // (i) all scalar values
-    r.range("C10/all-scalars", "every Unicode scalar value c (0..=0x10FFFF minus surrogates): display_width(c) == reference width, <= len_utf8; controls and U+0300..U+036F have width 0 (full build); and in the context 'a' CSI c OSC 'b'", 0x110000, |u, cx| {
+    r.range("C10/all-scalars", "every Unicode scalar value c (0..=0x10FFFF minus surrogates): display_width(c) == reference width, <= len_utf8; controls and U+0300..U+036F have width 0 (full build); and in the context 'a' CSI c OSC 'b'; and c inside an OSC payload (BEL- and ST-terminated) and among CSI parameters", 0x110000, |u, cx| {
         let c = match char::from_u32(u as u32) {
             Some(c) => c,
             None => return, // surrogate range: not a scalar value
@@ -55,6 +55,18 @@ fn run(r: &mut Run) -> Result<(), MachineryError> {
                 cx.set_input(&format!("a CSI U+{:04X} OSC b", u));
             }
             cx.check("C10-char-width-in-context", w2 == 2 + rw, &d, &|| json!({"display_width": w2, "expected": 2 + rw}));
+        }
+        // c inside the payload of an OSC and among the parameters of a CSI: the expectation comes
+        // from the grammar DFA (c may itself terminate the sequence, or leave the string malformed)
+        for s3 in [format!("\x1b]8;;{c}x\x07yz"), format!("\x1b]8;;{c}x\x1b\\yz"), format!("\x1b[{c}1myz")] {
+            if let Some(v) = ref_visible(&s3) {
+                if let Some(w3) = cx.guard(|| display_width(&s3)) {
+                    if w3 != v.width() {
+                        cx.set_input(&s3);
+                    }
+                    cx.check("C10-char-inside-sequence", w3 == v.width(), &d, &|| json!({"string": s3, "display_width": w3, "expected": v.width()}));
+                }
+            }
         }
         if u % 65536 == 0x4f60 % 65536 && cx.want_sample() {
             cx.sample(&|| json!({"scalar": format!("U+{:04X}", u), "display_width": w}));
